@@ -8,6 +8,9 @@
   router, failover group, de-duplication queues, swap store) returns the chunk object of a
   member unchanged.  The theorems quantify over *all* raw bytes and *all* decompression
   functions `dec`, which covers every corruption of the stored object.
+
+  `NewChunkFromStorage` obtains the data before it compares IDs, so an undecodable or empty
+  object is refused for every requested ID, the all-zero one included.
 -/
 import Desync.Model.Chunk
 
@@ -41,39 +44,68 @@ theorem getData_cached (dec : Bytes → Option Bytes) (c : ChunkObj) (b : Bytes)
       · cases h
     · cases h
 
-/-- characterisation of an accepted chunk: either the storage decoded to data hashing to the ID
-    (and that data is cached in the chunk), or nothing could be decoded and the ID is all-zero -/
-theorem fromStorage_ok_cases (H : Bytes → Bytes) (dec : Bytes → Option Bytes)
-    (id raw : Bytes) (convs : List Conv) (c : ChunkObj)
-    (h : newChunkFromStorage H dec id raw convs false = .ok c) :
-    (∃ d, raw.length > 0 ∧ fromStorage dec convs raw = some d ∧ H d = id ∧
-        c = { data := d, storage := raw, convs := convs, id := H d, idCalculated := true }) ∨
-    ((raw.length = 0 ∨ fromStorage dec convs raw = none) ∧
-        c = { storage := raw, convs := convs, id := id }) := by
+/-- the constructor with verification on, computed: it answers `.ok` exactly when the stored
+    bytes are non-empty, decode, and the decoded data hashes to the requested ID -/
+theorem fromStorage_eq (H : Bytes → Bytes) (dec : Bytes → Option Bytes)
+    (id raw : Bytes) (convs : List Conv) :
+    newChunkFromStorage H dec id raw convs false =
+      if raw.length > 0 then
+        match fromStorage dec convs raw with
+        | none => .invalid
+        | some d =>
+          if H d = id then
+            .ok { data := d, storage := raw, convs := convs, id := H d, idCalculated := true }
+          else .invalid
+      else .invalid := by
   by_cases hl : raw.length > 0
   · cases hdec : fromStorage dec convs raw with
     | none =>
-      right
-      simp only [newChunkFromStorage, ChunkObj.getID, ChunkObj.getData, List.length_nil, gt_iff_lt,
-        Nat.lt_irrefl, hl, hdec, Bool.false_eq_true, ↓reduceIte] at h
-      split at h
-      · cases h
-      · injection h with h; exact ⟨.inr rfl, h.symm⟩
+      simp [newChunkFromStorage, ChunkObj.getData, hl, hdec]
     | some d =>
-      left
-      simp only [newChunkFromStorage, ChunkObj.getID, ChunkObj.getData, List.length_nil, gt_iff_lt,
-        Nat.lt_irrefl, hl, hdec, Bool.false_eq_true, ↓reduceIte] at h
-      split at h
-      · cases h
-      · rename_i hsum
-        injection h with h
-        exact ⟨d, hl, rfl, by simpa using hsum, h.symm⟩
-  · right
-    simp only [newChunkFromStorage, ChunkObj.getID, ChunkObj.getData, List.length_nil, gt_iff_lt,
-      Nat.lt_irrefl, hl, Bool.false_eq_true, ↓reduceIte] at h
+      by_cases hd : d.length > 0
+      · simp [newChunkFromStorage, ChunkObj.getID, ChunkObj.getData, hl, hdec, hd]
+      · have hd0 : d = [] := by
+          cases d with
+          | nil => rfl
+          | cons x xs => simp at hd
+        subst hd0
+        simp [newChunkFromStorage, ChunkObj.getID, ChunkObj.getData, hl, hdec]
+  · simp [newChunkFromStorage, ChunkObj.getData, hl]
+
+/-- characterisation of an accepted chunk: the stored bytes are non-empty, they decode to data
+    hashing to the ID, and that data is cached in the chunk.  (The decoded data `d` may be the empty
+    list — a valid frame of nothing: then `data := []` caches nothing, `Data()` decodes the storage
+    again and yields `[]` again, and the ID that was compared is `H []`; the statement is the same.) -/
+theorem fromStorage_ok_cases (H : Bytes → Bytes) (dec : Bytes → Option Bytes)
+    (id raw : Bytes) (convs : List Conv) (c : ChunkObj)
+    (h : newChunkFromStorage H dec id raw convs false = .ok c) :
+    ∃ d, raw.length > 0 ∧ fromStorage dec convs raw = some d ∧ H d = id ∧
+        c = { data := d, storage := raw, convs := convs, id := H d, idCalculated := true } := by
+  rw [fromStorage_eq] at h
+  split at h
+  · rename_i hl
     split at h
     · cases h
-    · injection h with h; exact ⟨.inl (by omega), h.symm⟩
+    · rename_i d hdec
+      split at h
+      · rename_i hH
+        injection h with h
+        exact ⟨d, hl, hdec, hH, h.symm⟩
+      · cases h
+  · cases h
+
+/-- an accepted chunk does deliver: `Data()` succeeds, with the decoded storage -/
+theorem fromStorage_ok_delivers (H : Bytes → Bytes) (dec : Bytes → Option Bytes)
+    (id raw : Bytes) (convs : List Conv) (c : ChunkObj)
+    (h : newChunkFromStorage H dec id raw convs false = .ok c) :
+    ∃ d, fromStorage dec convs raw = some d ∧ delivers dec c d := by
+  obtain ⟨d, hl, hdec, _, rfl⟩ := fromStorage_ok_cases H dec id raw convs c h
+  refine ⟨d, hdec, ?_⟩
+  unfold delivers ChunkObj.getData
+  simp only
+  split
+  · rfl
+  · simp [hdec]
 
 /-- **Soundness of the constructor**: with verification on, a chunk built from storage bytes
     delivers only data that hashes to the requested ID — for all raw bytes and all `dec` -/
@@ -82,20 +114,13 @@ theorem fromStorage_sound (H : Bytes → Bytes) (dec : Bytes → Option Bytes)
     (h : newChunkFromStorage H dec id raw convs false = .ok c) (b : Bytes)
     (hb : delivers dec c b) : H b = id := by
   unfold delivers at hb
-  rcases fromStorage_ok_cases H dec id raw convs c h with ⟨d, hl, hdec, hH, rfl⟩ | ⟨hno, rfl⟩
-  · unfold ChunkObj.getData at hb
-    simp only at hb
-    split at hb
-    · simp only [Option.some.injEq] at hb; subst hb; exact hH
-    · simp only [hl, ↓reduceIte, hdec, Option.some.injEq] at hb
-      subst hb; exact hH
-  · unfold ChunkObj.getData at hb
-    simp only [List.length_nil, gt_iff_lt, Nat.lt_irrefl, ↓reduceIte] at hb
-    rcases hno with h0 | hd
-    · simp [h0] at hb
-    · split at hb
-      · simp [hd] at hb
-      · simp at hb
+  obtain ⟨d, hl, hdec, hH, rfl⟩ := fromStorage_ok_cases H dec id raw convs c h
+  unfold ChunkObj.getData at hb
+  simp only at hb
+  split at hb
+  · simp only [Option.some.injEq] at hb; subst hb; exact hH
+  · simp only [hdec, Option.some.injEq] at hb
+    subst hb; exact hH
 
 /-- the same for `NewChunkWithID` (plain data, used by the HTTP chunk server's PUT handler and
     by the null/seed paths) -/
@@ -124,34 +149,28 @@ theorem withID_sound (H : Bytes → Bytes) (dec : Bytes → Option Bytes) (id da
     hash to the ID (bit flip, truncation that still decodes, another chunk's valid object, a
     valid frame of other data) the constructor reports `ChunkInvalid` -/
 theorem corrupted_refused (H : Bytes → Bytes) (dec : Bytes → Option Bytes) (id raw d : Bytes)
-    (convs : List Conv) (hraw : raw ≠ []) (hdec : fromStorage dec convs raw = some d) (hne : H d ≠ id) :
-    ∃ r, newChunkFromStorage H dec id raw convs false = r ∧ (∀ c, r ≠ .ok c) := by
-  refine ⟨_, rfl, ?_⟩
-  intro c hc
-  have hlen : raw.length > 0 := by
-    cases raw with
-    | nil => exact absurd rfl hraw
-    | cons x xs => simp
-  unfold newChunkFromStorage at hc
-  simp only [Bool.false_eq_true, ↓reduceIte] at hc
-  unfold ChunkObj.getID at hc
-  simp only [Bool.false_eq_true, ↓reduceIte] at hc
-  unfold ChunkObj.getData at hc
-  simp only [List.length_nil, gt_iff_lt, Nat.lt_irrefl, ↓reduceIte, hlen, hdec] at hc
-  simp [hne] at hc
+    (convs : List Conv) (hdec : fromStorage dec convs raw = some d) (hne : H d ≠ id) :
+    newChunkFromStorage H dec id raw convs false = .invalid := by
+  rw [fromStorage_eq]
+  split
+  · simp [hdec, hne]
+  · rfl
 
-/-- undecodable or empty objects deliver nothing (even in the all-zero-ID corner where the
-    constructor accepts them) -/
-theorem undecodable_delivers_nothing (H : Bytes → Bytes) (dec : Bytes → Option Bytes) (id raw : Bytes)
-    (convs : List Conv) (c : ChunkObj) (hdec : fromStorage dec convs raw = none)
-    (h : newChunkFromStorage H dec id raw convs false = .ok c) : ∀ b, ¬ delivers dec c b := by
-  intro b hb
-  unfold delivers at hb
-  rcases fromStorage_ok_cases H dec id raw convs c h with ⟨d, _, hd, _, _⟩ | ⟨_, rfl⟩
-  · rw [hdec] at hd; cases hd
-  · unfold ChunkObj.getData at hb
-    simp only [List.length_nil, gt_iff_lt, Nat.lt_irrefl, ↓reduceIte, hdec] at hb
-    split at hb <;> simp at hb
+/-- **Undecodable or empty objects are refused**, whatever ID was asked for — the all-zero ID
+    included (before the repair of `NewChunkFromStorage` the zero ID that `ID()` yields on a
+    decoding error was taken for a match there) -/
+theorem undecodable_is_refused (H : Bytes → Bytes) (dec : Bytes → Option Bytes) (id raw : Bytes)
+    (convs : List Conv) :
+    (fromStorage dec convs raw = none → newChunkFromStorage H dec id raw convs false = .invalid) ∧
+    (raw = [] → newChunkFromStorage H dec id raw convs false = .invalid) := by
+  refine ⟨fun hdec => ?_, fun hraw => ?_⟩
+  · rw [fromStorage_eq]
+    split
+    · simp [hdec]
+    · rfl
+  · subst hraw
+    rw [fromStorage_eq]
+    simp
 
 /-! non-vacuity: with the identity "decompressor" and a digest that is the identity on one-byte
     strings, good bytes are accepted and delivered, other bytes are refused -/
@@ -159,5 +178,16 @@ example : ∃ c, newChunkFromStorage id some [7] [7] [] false = .ok c ∧ delive
   ⟨_, rfl, rfl⟩
 example : ∀ c, newChunkFromStorage id some [7] [8] [] false ≠ .ok c := by
   intro c h; simp [newChunkFromStorage, ChunkObj.getID, ChunkObj.getData, fromStorage] at h
+/-- a decompressor that rejects everything: `[1, 2, 3]` behind one compression layer is garbage,
+    and it is refused under the all-zero ID too (with a digest that maps everything to that ID) -/
+example : newChunkFromStorage (fun _ => zeroID) (fun _ => none) zeroID [1, 2, 3] [.compressor] false
+    = .invalid := rfl
+example : newChunkFromStorage (fun _ => zeroID) some zeroID [] [] false = .invalid := rfl
+/-- the hypotheses of `undecodable_is_refused` are satisfiable -/
+example : fromStorage (fun _ => none) [.compressor] [1, 2, 3] = none := rfl
+/-- decoded data may be empty: an object that decodes to `[]` is accepted under the ID `H []`
+    and delivers `[]` -/
+example : ∃ c, newChunkFromStorage (fun _ => [9]) (fun _ => some []) [9] [1] [.compressor] false = .ok c ∧
+    delivers (fun _ => some []) c [] := ⟨_, rfl, rfl⟩
 
 end Desync.C03
